@@ -42,8 +42,13 @@ class CM:
     def __enter__(self): LOG.append('enter'); return self
     def __exit__(self, *a): LOG.append('exit'); return False
 def d(x):
+    # a user decorator that can tell whether it was handed a checking wrapper or the raw definition
     if isinstance(x, int):
-        return lambda f: f
+        def inner(f):
+            LOG.append(('d1', hasattr(f, '__wrapped__')))
+            return f
+        return inner
+    LOG.append(('d', hasattr(x, '__wrapped__')))
     return x
 o = O()
 dd = {}
@@ -102,7 +107,7 @@ def render(stmts, conf, variant, k=None, in_class=False, indent=0):
         elif kind == 'class':
             # ('class', decos, members, nested)
             dl = deco_lines(list(s[1]), variant, conf['place_type'], 'RT')
-            lines = [*dl, f'class C{k()}:']
+            lines = [*dl, f'class {s[3] or "C%d" % k()}:']
             body = render(s[2], conf, variant, k, in_class=True, indent=0)
             lines += ['    ' + l for l in body] or ['    pass']
         elif kind == 'ann':
@@ -162,7 +167,7 @@ def module_source(mod, conf, variant):
 def statement_alphabet():
     f = lambda **kw: ('func', kw)
     return {
-        'F': f(), 'Fu': f(ann=''), 'Fbad': f(bad_hint=True), 'AF': f(is_async=True), 'Fd': f(decos=('@d',)), 'Fdd': f(decos=('@d', '@d(1)')),
+        'F': f(), 'Fu': f(ann=''), 'Fbad': f(bad_hint=True), 'AF': f(is_async=True), 'AFd': f(is_async=True, decos=('@d',)), 'Fd': f(decos=('@d',)), 'Fdd': f(decos=('@d', '@d(1)')),
         'C': ('class', (), [f(), ('ann', 'name', True, False)], None), 'Cd': ('class', ('@d', '@d(1)'), [f(static=True), f(ann='')], None),
         'Cn': ('class', (), [('class', (), [f()], None), f()], None), 'Cbad': ('class', (), [f(bad_hint=True), f()], None),
         'Aok': ('ann', 'name', True, True), 'Abad': ('ann', 'name', True, False), 'Anov': ('ann', 'name', False, True),
@@ -199,6 +204,22 @@ def modules(tier):
         if fn:
             mods.append((f'|{"+".join(defs)},call-ok', (False, False, stm + [('call', fn, True), ('plain',)])))
             mods.append((f'|{"+".join(defs)},call-bad', (True, True, stm + [('plain',), ('call', fn, False), ('plain',)])))
+    # classes with an unhandled member before / after / between checked siblings (also static, nested), then a call of a sibling
+    def kls(members, name='K0', decos=()):
+        return ('class', decos, members, name)
+    g = lambda n, **kw: ('func', dict(name=n, **kw))
+    for lab, cls, callee in (
+            ('bad,g', kls([g('b0', bad_hint=True), g('g1')]), 'K0().g1'), ('g,bad', kls([g('g0'), g('b1', bad_hint=True)]), 'K0().g0'),
+            ('bad,static', kls([g('b0', bad_hint=True), g('g1', static=True)]), 'K0.g1'),
+            ('g,bad,g', kls([g('g0'), g('b1', bad_hint=True), g('g2')]), 'K0().g2'),
+            ('bad,bad,g', kls([g('b0', bad_hint=True), g('b1', bad_hint=True), g('g2')]), 'K0().g2'),
+            ('d:bad,g', kls([g('b0', bad_hint=True), g('g1')], decos=('@d',)), 'K0().g1'),
+            ('nested:bad,g', kls([kls([g('b0', bad_hint=True), g('g1')], name='Inner')]), 'K0.Inner().g1'),
+            ('bad;nested:g', kls([g('b0', bad_hint=True), kls([g('g1')], name='Inner')]), 'K0.Inner().g1'),
+            ('nested:bad;g', kls([kls([g('b0', bad_hint=True)], name='Inner'), g('g1')]), 'K0().g1'),
+            ('g', kls([g('g0')]), 'K0().g0')):
+        mods.append((f'|class({lab}),call-ok', (False, False, [cls, ('call', callee, True), ('plain',)])))
+        mods.append((f'|class({lab}),call-bad', (False, True, [cls, ('plain',), ('call', callee, False), ('plain',)])))
     # every statement inside every compound wrapper
     for how in ('if', 'for', 'while', 'try', 'with', 'match'):
         for n in names:
@@ -218,6 +239,7 @@ def confs():
         dict(name='nopep526', kw=dict(claw_is_pep526=False), place_func='LAST', place_type='LAST', pep526=False),
         dict(name='first', kw=dict(claw_decor_place_func=P.FIRST, claw_decor_place_type=P.FIRST), place_func='FIRST', place_type='FIRST', pep526=True),
         dict(name='lastfirst', kw=dict(claw_decor_place_func=P.LAST, claw_decor_place_type=P.FIRST), place_func='LAST', place_type='FIRST', pep526=True),
+        dict(name='firstlast', kw=dict(claw_decor_place_func=P.FIRST, claw_decor_place_type=P.LAST), place_func='FIRST', place_type='LAST', pep526=True),
         dict(name='exc', kw=dict(violation_type=ExcA), place_func='LAST', place_type='LAST', pep526=True),
     ]
 
@@ -430,6 +452,16 @@ def run(ctx):
                     stmt_orig = orig_lines[oh[2] - 1].strip() if oh[2] - 1 < len(orig_lines) else '<beyond>'
                     if stmt_ref != stmt_orig:
                         ctx.violation(f'traceback-line:{sig}', f'the violation is reported at line {oh[2]} ({stmt_orig!r}); the offending statement is {stmt_ref!r}\n{src}', rep)
+                # ---- the rule itself for modules that end in a call of a checked definition
+                if label.endswith(',call-bad') or label.endswith(',call-ok'):
+                    call_line = next(n for n, l in enumerate(src.splitlines(), 1) if l.startswith(('g', 'K0')) and '(t(' in l)
+                    vio = 'ExcA' if conf['name'] == 'exc' else 'BeartypeCallHintParamViolation'
+                    want = ('raised', vio, call_line) if label.endswith(',call-bad') else ('ok',)
+                    if oh[:len(want)] != want:
+                        ctx.violation(f'checked-definition:{sig}', f'hooked import ended {oh}; by the rule the call on line {call_line} of a checked definition ends {want}\n{src}', rep)
+                # a user decorator may see a wrapper instead of the raw definition; that is not a change of program meaning
+                norm = lambda log: [e[0] if isinstance(e, tuple) else e for e in log]
+                lh, lp = norm(lh), norm(lp)
                 if orf[0] == 'ok' and (oh != op or lh != lp):
                     import collections as _c
                     extra = _c.Counter(lh) - _c.Counter(lp)
@@ -439,7 +471,8 @@ def run(ctx):
                 # ---- unhandled hints
                 n_bad = src.count('a: 3')
                 n_warn = wh.count('BeartypeClawDecorWarning')
-                if n_warn != n_bad and oh[0] == 'ok':
+                # (a definition in a nested class is visited once per enclosing decorated class: at least one warning each, none otherwise)
+                if (n_warn < n_bad or (n_bad == 0 and n_warn) or (n_warn != n_bad and 'nested' not in label and '|Cn' not in label)) and oh[0] == 'ok':
                     ctx.violation(f'decor-warnings:{n_warn}-for-{n_bad}:{sig}', f'{n_bad} definition(s) with an unhandled annotation, {n_warn} BeartypeClawDecorWarning(s): {wh}\n{src}', rep)
                 other = [w for w in wh if w != 'BeartypeClawDecorWarning']
                 if other != [w for w in wr if w != 'BeartypeClawDecorWarning']:
@@ -482,8 +515,8 @@ def run(ctx):
         disagreements_checked=n_static, distinct_nontrivial=len(outcomes), modules=len(mods), configurations=[c['name'] for c in CONFS],
         static_ast_comparisons=n_static, reimports_under_another_configuration=n_re, distinct_outcomes=sorted(map(str, outcomes))[:12], exhaustive=True,
         samples=[module_source(mods[40][1], CONFS[0], 'orig'), module_source(mods[-3][1], CONFS[2], 'ref')],
-        rule=(f'E1: {len(mods)} generated modules (17 statement kinds alone under all docstring/__future__ prefixes, all ordered pairs, definitions '
-              'followed by conforming / violating calls incl. siblings of unhandled definitions, every statement inside each of 6 compound wrappers, '
+        rule=(f'E1: {len(mods)} generated modules ({len(statement_alphabet())} statement kinds alone under all docstring/__future__ prefixes, all ordered pairs, definitions '
+              'followed by conforming / violating calls incl. siblings of unhandled definitions at module level and in (nested, decorated) classes, judged by the rule itself, every statement inside each of 6 compound wrappers, '
               f'nested wrappers{"" if ctx.quick else ", triples over a 7-kind core"}) x {len(CONFS)} hook configurations (default, claw_is_pep526 off, decorator '
               'placements FIRST / LAST for functions and classes, non-default violation type); each really imported three ways from scratch packages '
               '(hooked, unhooked, checks written by hand), AST captured from the real source_to_code; then the violating modules are re-imported '
